@@ -411,8 +411,9 @@ def enumeration(rep):
         okr = False
         if rets and mn and LABELS:
             MIN = [nm for nm, xs in defs.items() for x in xs if x.value is mn[0]]
-            m = pmatch(f"[set(({LABELS}[$i] for $i in $S)) for $S in $min]", rets[-1].value) or pmatch(f"[{{{LABELS}[$i] for $i in $S}} for $S in $min]", rets[-1].value)
-            okr = m is not None and bool(MIN) and m["min"] == MIN[0]
+            m = pmatch(f"[set(({LABELS}[$i] for $i in $S)) for $S in $$min]", rets[-1].value) or pmatch(f"[{{{LABELS}[$i] for $i in $S}} for $S in $$min]", rets[-1].value)
+            # the minimal sets: the local bound to _minimal_sets(..), or that call written in place
+            okr = m is not None and (bool(MIN) and m["min"] == MIN[0] or m["min"] == norm(mn[0]))
         rep.ob("O20.2", "ENUM", fi, okr, alpha(rets[-1], fi.node) if rets else "return", "indices are translated back to species labels of the same order")
     fi = rep.f(SR, "_minimal_sets")
     C0 = fi.params[0]
